@@ -203,8 +203,23 @@ def check_normalisation(ctx):
         target_one = close and any(is_const(a, 1.0) or is_const(a, 1) for a in t.test.operand.args)
         ok_num = close and target_one and any(isinstance(s, ast.Raise) for s in t.body)
     ctx.check(ok_num, R4, fi.key + ":numeric", "numeric vectors: raise unless isclose(sum |a|^2, 1)", "numeric vectors are not rejected exactly when their squared norm is not close to 1", fi)
-    sums = [n for n in ast.walk(ast.Module(body=b.body, type_ignores=[])) if isinstance(n, ast.Assign) and "np.sum(np.abs(" in norm(n.value) and "** 2" in norm(n.value)]
-    ctx.check(bool(sums) and p in norm(sums[0].value), R4, fi.key + ":numeric-sum", "sum of squared magnitudes of the vector", "the numeric branch does not sum the squared magnitudes of the given vector", fi)
+    from ..common import squared_norm_idiom
+
+    def tested_quantity(block, test_expr):
+        """definition of the name compared in the branch's test"""
+        names = {n.id for n in ast.walk(test_expr) if isinstance(n, ast.Name)}
+        for s in block:
+            for a in ast.walk(s):
+                if isinstance(a, ast.Assign) and isinstance(a.targets[0], ast.Name) and a.targets[0].id in names:
+                    return a.value
+        return None
+
+    q = tested_quantity(b.body, num_tests[0].test) if num_tests else None
+    verdict = squared_norm_idiom(q, p) if q is not None else None
+    if q is None or verdict is None:
+        ctx.undecided(R4, fi.key + ":numeric-sum", f"cannot recognise how the tested quantity {short(q) if q is not None else '?'} is computed from `{p}`", fi)
+    else:
+        ctx.check(verdict, R4, fi.key + ":numeric-sum", "tested quantity is sum_i |a_i|^2 (conjugated square)", f"the numeric branch tests {short(q)}: for complex amplitudes that is not sum |a_i|^2 (conjugation or square missing)", fi)
     # symbolic branch
     sym_tests = [n for n in ast.walk(ast.Module(body=b.orelse, type_ignores=[])) if isinstance(n, ast.If)]
     ok_sym = False
@@ -216,6 +231,18 @@ def check_normalisation(ctx):
             ok_sym = (gt or lt) and any(isinstance(s, ast.Raise) for s in sym_tests[0].body)
     ctx.check(ok_sym, R4, fi.key + ":symbolic", "partly symbolic vectors: raise when the numeric part already exceeds 1", "partly symbolic vectors are not rejected exactly when their numeric entries already exceed probability 1", fi)
     sel = [n for n in ast.walk(ast.Module(body=b.orelse, type_ignores=[])) if isinstance(n, ast.ListComp) and any("_is_number" in norm(i) for g in n.generators for i in g.ifs)]
+    if sym_tests:
+        q = tested_quantity(b.orelse, sym_tests[0].test)
+        holder = None
+        for s_ in b.orelse:
+            for a in ast.walk(s_):
+                if isinstance(a, ast.Assign) and isinstance(a.targets[0], ast.Name) and sel and any(x is sel[0] for x in ast.walk(a.value)):
+                    holder = a.targets[0].id
+        verdict = squared_norm_idiom(q, holder) if (q is not None and holder) else None
+        if verdict is None:
+            ctx.undecided(R4, fi.key + ":symbolic-sum", f"cannot recognise how the tested quantity {short(q) if q is not None else '?'} is computed from the numeric entries", fi)
+        else:
+            ctx.check(verdict, R4, fi.key + ":symbolic-sum", "tested quantity is sum |a_i|^2 over the numeric entries", f"the symbolic branch tests {short(q)}: for complex numeric entries that under-counts their weight (conjugation or square missing), so over-unity vectors are accepted", fi)
     ctx.check(bool(sel) and norm(sel[0].generators[0].iter) == p, R4, fi.key + ":numeric-entries", "numeric entries of the vector selected by _is_number", "the symbolic branch does not select the numeric entries of the given vector", fi)
     isn = repo.func(f"{WF}:_is_number")
     ctx.analysed(isn)
@@ -241,5 +268,5 @@ def run(ctx):
     ctx.floor("C12-D1", 3)
     ctx.floor("C12-D2", 4)
     ctx.floor("C12-D3", 20)
-    ctx.floor("C12-D4", 6)
+    ctx.floor("C12-D4", 7)
     ctx.floor("C12-D5", 5)
